@@ -116,7 +116,7 @@ Section Backend.
     eapply cc_step; [apply core_eq; eauto|apply core_eq; eauto|apply Hset; eauto|auto].
   Qed.
 
-  Theorem backend_independent : forall y1 c1 y2 c2,
+  Lemma backend_independent : forall y1 c1 y2 c2,
     dbscan nb1 minpts n = Some (y1, c1) -> dbscan nb2 minpts n = Some (y2, c2) ->
     c1 = c2 /\
     (forall i, i < n -> core nb1 minpts i -> get y1 i = get y2 i) /\
@@ -158,5 +158,41 @@ Section Backend.
     split; intros [A B]; (split; [rewrite core_eq in *; auto; tauto|]); intros q Hq.
     - assert (q < n) by (eapply Hrange2; eauto). rewrite <- core_eq by assumption. apply B. apply Hset; auto.
     - assert (q < n) by (eapply Hrange1; eauto). rewrite core_eq by assumption. apply B. apply Hset; auto.
+  Qed.
+
+  (* border points too: a border point gets the smallest cluster id among its core neighbours, so the
+     whole labelling is a function of the neighbourhood sets *)
+  Lemma backend_independent_all : forall y1 c1 y2 c2,
+    dbscan nb1 minpts n = Some (y1, c1) -> dbscan nb2 minpts n = Some (y2, c2) ->
+    y1 = y2 /\ c1 = c2.
+  Proof.
+    intros y1 c1 y2 c2 R1 R2.
+    destruct (backend_independent y1 c1 y2 c2 R1 R2) as (Hc & Hcore & Hnoise).
+    split; [|exact Hc].
+    pose proof (dbscan_correct nb1 minpts n Hrange1 Hsym1 y1 c1 R1) as (Len1 & _ & L1 & _ & _ & B1 & _ & _ & M1).
+    pose proof (dbscan_correct nb2 minpts n Hrange2 Hsym2 y2 c2 R2) as (Len2 & _ & L2 & _ & _ & B2 & _ & _ & M2).
+    apply (nth_ext y1 y2 undefined undefined); [congruence|].
+    intros i Hi. rewrite Len1 in Hi. change (get y1 i = get y2 i).
+    destruct (core_dec nb1 minpts i) as [Hci|Hnc]; [auto|].
+    destruct (L1 i Hi) as [H1|H1]; [rewrite H1; symmetry; apply Hnoise; auto|].
+    destruct (L2 i Hi) as [H2|H2]; [rewrite H2; apply Hnoise; auto|].
+    assert (Hnc2 : ~ core nb2 minpts i) by (rewrite <- core_eq; auto).
+    (* both labelled: each is the label of a core neighbour and a lower bound of all of them *)
+    assert (E1 : exists q, In q (nb1 i) /\ core nb1 minpts q).
+    { destruct (core_dec nb1 minpts i); [contradiction|].
+      destruct (L1 i Hi) as [E|_]; [lia|].
+      pose proof (dbscan_inv nb1 minpts n Hrange1 Hsym1 y1 c1 R1) as HO.
+      destruct (o_border _ _ _ _ _ _ HO i Hi Hnc ltac:(lia)) as (q & Q1 & Q2 & _). eauto. }
+    destruct (B1 i Hi Hnc E1) as (q1 & Q1 & Q2 & Q3).
+    assert (E2 : exists q, In q (nb2 i) /\ core nb2 minpts q).
+    { destruct E1 as (q & A & B). exists q. split; [apply Hset; auto|].
+      apply core_eq; eauto. }
+    destruct (B2 i Hi Hnc2 E2) as (q2 & T1 & T2 & T3).
+    assert (q1 < n) by (apply (Hrange1 i q1 Hi Q1)). assert (q2 < n) by (apply (Hrange2 i q2 Hi T1)).
+    pose proof (M2 i q1 Hi ltac:(apply Hset; auto) ltac:(apply core_eq; auto)) as Hle2.
+    pose proof (M1 i q2 Hi ltac:(apply Hset; auto) ltac:(apply core_eq; auto)) as Hle1.
+    rewrite <- (Hcore q1) in Hle2 by auto.
+    rewrite (Hcore q2) in Hle1 by (auto; apply core_eq; auto).
+    lia.
   Qed.
 End Backend.
